@@ -60,7 +60,11 @@ var Plugin = plugins.Plugin{
 
 var recLock sync.RWMutex
 
-// StaticRecords holds a MAC -> IP address mapping
+// StaticRecords holds a MAC -> IP address mapping. It is the mapping loaded
+// last, by any instance of the plugin, and what the package-level Handler6 and
+// Handler4 serve from. The handlers returned by the setup functions serve from
+// the mapping of their own instance, so that the DHCPv6 and DHCPv4 servers
+// each answer from their own file.
 var StaticRecords map[string]net.IP
 
 // DHCPv6Records and DHCPv4Records are mappings between MAC addresses in
@@ -143,6 +147,11 @@ func LoadDHCPv6Records(filename string) (map[string]net.IP, error) {
 
 // Handler6 handles DHCPv6 packets for the file plugin
 func Handler6(req, resp dhcpv6.DHCPv6) (dhcpv6.DHCPv6, bool) {
+	return handle6(&StaticRecords, req, resp)
+}
+
+// handle6 serves a DHCPv6 request from the given mapping (guarded by recLock)
+func handle6(records *map[string]net.IP, req, resp dhcpv6.DHCPv6) (dhcpv6.DHCPv6, bool) {
 	m, err := req.GetInnerMessage()
 	if err != nil {
 		log.Errorf("BUG: could not decapsulate: %v", err)
@@ -164,7 +173,7 @@ func Handler6(req, resp dhcpv6.DHCPv6) (dhcpv6.DHCPv6, bool) {
 	recLock.RLock()
 	defer recLock.RUnlock()
 
-	ipaddr, ok := StaticRecords[mac.String()]
+	ipaddr, ok := (*records)[mac.String()]
 	if !ok {
 		log.Warningf("MAC address %s is unknown", mac.String())
 		return resp, false
@@ -186,10 +195,15 @@ func Handler6(req, resp dhcpv6.DHCPv6) (dhcpv6.DHCPv6, bool) {
 
 // Handler4 handles DHCPv4 packets for the file plugin
 func Handler4(req, resp *dhcpv4.DHCPv4) (*dhcpv4.DHCPv4, bool) {
+	return handle4(&StaticRecords, req, resp)
+}
+
+// handle4 serves a DHCPv4 request from the given mapping (guarded by recLock)
+func handle4(records *map[string]net.IP, req, resp *dhcpv4.DHCPv4) (*dhcpv4.DHCPv4, bool) {
 	recLock.RLock()
 	defer recLock.RUnlock()
 
-	ipaddr, ok := StaticRecords[req.ClientHWAddr.String()]
+	ipaddr, ok := (*records)[req.ClientHWAddr.String()]
 	if !ok {
 		log.Warningf("MAC address %s is unknown", req.ClientHWAddr.String())
 		return resp, false
@@ -218,8 +232,11 @@ func setupFile(v6 bool, args ...string) (handler.Handler6, handler.Handler4, err
 		return nil, nil, errors.New("got empty file name")
 	}
 
+	// the mapping of this instance of the plugin
+	records := new(map[string]net.IP)
+
 	// load initial database from lease file
-	n, err := loadFromFile(v6, filename)
+	n, err := loadFromFile(v6, filename, records)
 	if err != nil {
 		return nil, nil, err
 	}
@@ -242,7 +259,7 @@ func setupFile(v6 bool, args ...string) (handler.Handler6, handler.Handler4, err
 		// on the file
 		go func() {
 			for range watcher.Events {
-				n, err := loadFromFile(v6, filename)
+				n, err := loadFromFile(v6, filename, records)
 				if err != nil {
 					log.Warningf("failed to refresh from %s: %s", filename, err)
 
@@ -255,13 +272,16 @@ func setupFile(v6 bool, args ...string) (handler.Handler6, handler.Handler4, err
 	}
 
 	log.Infof("loaded %d leases from %s", n, filename)
-	return Handler6, Handler4, nil
+	h6 := func(req, resp dhcpv6.DHCPv6) (dhcpv6.DHCPv6, bool) { return handle6(records, req, resp) }
+	h4 := func(req, resp *dhcpv4.DHCPv4) (*dhcpv4.DHCPv4, bool) { return handle4(records, req, resp) }
+	return h6, h4, nil
 }
 
-// loadFromFile replaces the lease mapping with the content of the file. It
-// returns the number of leases loaded: StaticRecords must not be read without
-// holding recLock, another instance's watcher may be replacing it
-func loadFromFile(v6 bool, filename string) (int, error) {
+// loadFromFile replaces the lease mapping of an instance (and StaticRecords)
+// with the content of the file. It returns the number of leases loaded:
+// StaticRecords must not be read without holding recLock, another instance's
+// watcher may be replacing it
+func loadFromFile(v6 bool, filename string, dst *map[string]net.IP) (int, error) {
 	var err error
 	var records map[string]net.IP
 	var protver int
@@ -279,6 +299,7 @@ func loadFromFile(v6 bool, filename string) (int, error) {
 	recLock.Lock()
 	defer recLock.Unlock()
 
+	*dst = records
 	StaticRecords = records
 
 	return len(records), nil
